@@ -143,7 +143,10 @@ func (corSelf *CorDef[T]) YieldFrom(target *CorDef[T], in T) T {
 		return result
 	}
 
-	target.receive(corSelf, in)
+	if !target.receive(corSelf, in) {
+		// The target is done already: nobody would answer
+		return result
+	}
 
 	// fmt.Println(corSelf, "Wait for", "result")
 	result, _ = <-corSelf.resultCh
@@ -152,14 +155,17 @@ func (corSelf *CorDef[T]) YieldFrom(target *CorDef[T], in T) T {
 	return result
 }
 
-func (corSelf *CorDef[T]) receive(cor *CorDef[T], in T) {
+func (corSelf *CorDef[T]) receive(cor *CorDef[T], in T) bool {
+	delivered := false
 	corSelf.doCloseSafe(func() {
 		if corSelf.opCh != nil {
 			// fmt.Println(corSelf, "Wait for", "receive", cor, in)
 			corSelf.opCh <- &CorOp[T]{cor: cor, val: in}
+			delivered = true
 			// fmt.Println(corSelf, "Wait for", "receive", "done")
 		}
 	})
+	return delivered
 }
 
 // YieldFromIO Yield from a given MonadIO
@@ -203,12 +209,13 @@ func (corSelf *CorDef[T]) close() {
 }
 
 func (corSelf *CorDef[T]) doCloseSafe(fn func()) {
+	corSelf.closedM.Lock()
+	defer corSelf.closedM.Unlock()
+	// Check under the lock: close() closes the channels while holding it
 	if corSelf.IsDone() {
 		return
 	}
-	corSelf.closedM.Lock()
 	fn()
-	corSelf.closedM.Unlock()
 }
 
 // Cor Cor utils instance
